@@ -83,7 +83,9 @@ PairStacks ==
 \* nests of shuffles with permutations that do not commute (N = 3, 4), directly and with another layer in between (always
 \* included, also in the quick tier)
 NestStacks ==
-  {<<ShuffleL(1, N), ShuffleL(2, N)>> \o IntTail(N, 2, "float") : N \in 3..4}
+  \* a stack whose view is exactly as large as field_view allows (256 bytes = 96 + 72 + 48 + 24 + 16)
+  {<<AffineL(1, 3), BackupL(2, 3, 3), ClampL(3, 3)>> \o IntTail(3, 3, "double")}
+  \cup {<<ShuffleL(1, N), ShuffleL(2, N)>> \o IntTail(N, 2, "float") : N \in 3..4}
   \cup {<<ShuffleL(2, N), ShuffleL(1, N)>> \o RealTail(N, N, 1, "float") : N \in 3..4}
   \cup {<<ShuffleL(2, 3), ShuffleL(1, 3), ShuffleL(2, 3)>> \o IntTail(3, 1, "double"), <<ShuffleL(1, 3), ClampL(1, 3), ShuffleL(2, 3)>> \o IntTail(3, 2, "float")}
 
@@ -195,6 +197,7 @@ IllStacks == {
                 [k |-> "affine", A |-> [i \in 1..4 |-> [c \in 1..5 |-> IF c = i THEN 1 ELSE 0]]],
                 IdentL(4, "double")>>] }
 IllLaw == \A c \in IllStacks : IsIll(Kind(c.layers)) \/ ViewBytes(c.layers) > 256
+BoundaryLaw == \E st \in NestStacks : ViewBytesUp(st) = 256 /\ ViewBytes(st) = 256 /\ WellKinded(st)
 ASSUME IllLaw
 
 EmitCases == TLCGet("stats").generated >= 0 /\
